@@ -39,6 +39,8 @@ m = {
     "engines": [
         {"name": "vcheck", "path": "harness/vcheck", "serves_properties": [c["property_id"] for c in checks],
          "kind_free_text": "proptest-driven generators + exhaustive enumerations + fault injection against independent reference implementations (harness/refimpl); isolated worker processes for crash/abort/hang oracles (C05); scripted protocol peers and the real tool binaries built from /repo (C30, C32, C33, C35); shrinking to JSON replay files"},
+        {"name": "libfuzzer-readers", "path": "fuzz", "serves_properties": ["C05"],
+         "kind_free_text": "cargo-fuzz / libFuzzer target `readers` over the same ten C05 entry-point drivers (harness/drivers), coverage-guided, fork mode; run by tools/fuzz_c05.sh inside `./check C05 thorough`; every crash input is converted into a vcheck replay case and judged by the C05 worker oracle"},
     ],
     "checks": checks,
     "not_applicable": na,
